@@ -335,6 +335,15 @@ static int sim_validcb(cfg_t *cfg, cfg_opt_t *opt)
 		entry += " last=" + value_repr(opt, n - 1);
 	else if (opt->simple_value.ptr && opt->type != CFGT_SEC)
 		entry += " last=" + value_repr(opt, 0); // bound to an application variable: no value list, the getter reads the variable
+	{
+		// the context handed to a validator is the one that holds the option
+		bool holds = false;
+		for (unsigned k = 0; cfg && k < cfg_num(cfg); k++)
+			if (cfg_getnopt(cfg, k) == opt)
+				holds = true;
+		if (!holds)
+			entry += " MISMATCH(the context handed to the validator does not hold the option)";
+	}
 	int verdict;
 	cb_tick(entry, &verdict, cfg);
 	return verdict;
